@@ -73,6 +73,19 @@ NOTES = {
  "C16-g": "escaped at first (no clauses outside rules in tested files); a third of the programs have an implicit default rule with expectations under the name the test command gives it",
  "C17-g": "escaped at first (parameter files were regular files); layout bit: the last parameter file is a symbolic link to a file without a data extension",
  "C18-g": "escaped at first (out-of-range ints for parse_char were small); ints congruent to a digit modulo 2^8 / 2^16 / 2^32 and the i64 bounds added",
+ "C04-h": "escaped at first (C04's documents never held two spellings of one multi-word key); a third of the wide cases now do, with rules that reach the families through different case conversions",
+ "C05-h": "escaped at first (the batch stage only compared --structured runs); plain -o json / -o yaml / console -p over 2-3 data files vs the files on their own",
+ "C07-h": "escaped at first (every entry point got the same well-behaved JSON); stage 'entry-points': ten texts whose reading is not obvious (`-0`, repeated names, ints beyond i64, overflowing floats, surrogate escapes, YAML hex) must be decided alike through file, stdin and --payload",
+ "C08-h": "escaped at first (a watchdog hit was always inconclusive, and no template had an escaped quote in a nested value); a process that has burnt 60 CPU seconds of its 90 s on a 300-byte input is a hang, whatever the load; two rulegen templates added",
+ "C09-h": "escaped at first (the record was trusted as it stood); the truth record must itself follow from its parts (C02's laws) before the report is compared with it",
+ "C10-h": "escaped at first (lists had at most a handful of entries); a fifth of the documents hold a list of 11-130 entries with failing and unresolved checks on single entries",
+ "C11-h": "escaped at first (no NUL in the string universe); `ab\\0cd`, a lone NUL and other control characters added (which exposed F64)",
+ "C14-h": "escaped at first (the variant printer only broke lines after commas); blanks and line breaks before commas, after `[` and before `]`",
+ "C15-h": "escaped at first (block-level variables were bound directly, blocks mostly ran on one value); stage 'block-chains': blocks over 2-4 entries whose clause goes through 1-3 block-level variables defined from one another (also out of order, also from `this`), plus a chained variant of the prefix transform",
+ "C16-h": "escaped at first (one guard file per --dir run); a second guard file `x-logs.guard` with its own test file",
+ "C17-h": "escaped at first (structured runs were only read as JSON); structured YAML, JUnit and SARIF modes",
+ "C18-h": "escaped at first (ints for parse_string were small); ints beyond 2^53 for every function (this also exposed a swallowed panic of the harness itself, see DESIGN 10.3)",
+ "C19-h": "escaped at first (logical ids were numbered type by type); ids and document order are now independent of the types",
  "C09-a": "caught through the file-status law; C09 now also compares rule names with the generated programs",
 }
 rows = []
